@@ -1370,6 +1370,20 @@ _vbi_cache_foreach_page		(vbi_cache *		ca,
 
 	ps = cache_network_page_stat (cn, pgno);
 
+	if (NULL == cp && ps->n_subpages > 0) {
+		/* The walk starts at a subpage which is not cached. When
+		   it lies beyond the subpages of this page the first step
+		   below must lead to the nearest one, not out of the
+		   page. */
+		if (dir < 0) {
+			if (subno > ps->subno_max)
+				subno = ps->subno_max + 1;
+		} else {
+			if (subno < ps->subno_min)
+				subno = ps->subno_min - 1;
+		}
+	}
+
 	wrapped = FALSE;
 
 	for (;;) {
